@@ -97,11 +97,11 @@ class MapFilter:
 
         if isinstance(first, LambdaExpression):
             return [
-                _NULL if is_undefined(item) else item
+                None if is_undefined(item) else item
                 for item in first.map(context, left)
             ]
 
         try:
-            return [_getitem(itm, str(first), default=_NULL) for itm in left]
+            return [_getitem(itm, str(first), default=None) for itm in left]
         except TypeError as err:
             raise LiquidTypeError("can't map sequence", token=None) from err
